@@ -17,7 +17,7 @@ RULE = ("M {1,2,5} x backlog {M+1, 3M, 50} x durations {0, 1ms, 1s, 6s} x tasks_
         "fingerprint = (broker, M, backlog, duration, tasks_limit, queues) | (plugin, sequence); trivial = none")
 ASSUMPTIONS = ["Redis and RabbitMQ are wire-level fakes", "virtual time; run() must return within longest actor + graceful period + 10 s after the M-th completion"]
 EVAL_COUNTER = "runs_judged"
-REQUIRED = ["runs_judged", "leftovers_checked", "plugin_enqueues", "runs_limit_lt_backlog_concurrent", "late_arrival_runs", "limit_hook_evaluations"]
+REQUIRED = ["runs_judged", "leftovers_checked", "plugin_enqueues", "runs_limit_lt_backlog_concurrent", "late_arrival_runs"]
 CASE_TIMEOUT = 150
 
 
